@@ -19,6 +19,8 @@ type Sender struct {
 	pending []*Parked
 	seq     int
 	Log     []string
+	// Auto, when set, answers a call at once instead of parking it (ok=false: park after all)
+	Auto func(pk *Parked) (r Result, ok bool)
 }
 
 type Parked struct {
@@ -42,6 +44,15 @@ var ErrScripted = errors.New("scripted failure")
 
 func (s *Sender) park(ctx context.Context, kind string, p peer.ID, m *pb.Message) Result {
 	pk := &Parked{Sender: s, Kind: kind, Peer: p, Msg: m, Ctx: ctx, ch: make(chan Result, 1)}
+	if auto := s.Auto; auto != nil {
+		if r, ok := auto(pk); ok {
+			if r.CtxErr {
+				<-ctx.Done()
+				return Result{Err: ctx.Err()}
+			}
+			return r
+		}
+	}
 	s.mu.Lock()
 	s.seq++
 	pk.Seq = s.seq
